@@ -373,6 +373,25 @@ func TestProp_Cursor(t *testing.T) {
 		s.checkBacking(t, true)
 		c.Restore() // idempotent
 		s.checkBacking(t, true)
+		// after Restore the caller's bytes are the caller's again: calls that only move or report the cursor (they read
+		// nothing) must leave them alone
+		for k := rapid.IntRange(0, 3).Draw(t, "afterRestore"); k > 0; k-- {
+			switch op := rapid.SampledFrom([]string{"Reset", "Pos", "Offset", "Rewind0", "Skip", "Restore"}).Draw(t, "afterop"); op {
+			case "Reset":
+				c.Reset()
+			case "Pos":
+				c.Pos()
+			case "Offset":
+				c.Offset()
+			case "Rewind0":
+				c.Rewind(0)
+			case "Skip":
+				c.Skip()
+			case "Restore":
+				c.Restore()
+			}
+			s.checkBacking(t, true)
+		}
 		ev.Case("cursor", s.kind+"|"+string(d)+"|"+strings.Join(hist, ","), nact >= 8 && sawRewShift && sawRuneEnd && len(d) >= 2, s.kind)
 	})
 }
